@@ -60,6 +60,24 @@ def run(ctx):
         b2 = float(model.beamspread_2d_for_path(ray.RayGeometry.from_path(p2))[0, 0])
         if not rel(b2, b / np.sqrt(s), 1e-9):
             ctx.violate(f"scaling the geometry by {s} does not scale the beamspread by 1/sqrt(s)", cj, {"kind": "scaling"})
+        # rigid motion: the same inspection in another plane of the global frame (points, local frames rotated and
+        # shifted together) has the same leg lengths, velocities and incidence angles, hence the same beamspread
+        import fixtures
+        R, shift = fixtures.rot3(rng), rng.normal(size=3) * 1e-2
+        moved = []
+        for i in path.interfaces:
+            P = g.Points(i.points.coords @ R.T + shift, i.points.name)
+            O = g.Points(i.orientations.coords @ R.T, i.orientations.name)
+            moved.append(arim.Interface(P, O, i.kind, i.transmission_reflection, i.reflection_against,
+                                        i.are_normals_on_inc_rays_side, i.are_normals_on_out_rays_side))
+        p3 = arim.Path(tuple(moved), path.materials, path.modes, name=path.name)
+        arim.ray.ray_tracing_for_paths([p3])
+        same_ray = np.array_equal(p3.rays.indices, path.rays.indices)
+        b3 = float(model.beamspread_2d_for_path(ray.RayGeometry.from_path(p3))[0, 0])
+        ctx.count("rigid_motion")
+        if same_ray and not rel(b3, b, 1e-9):
+            ctx.violate(f"the same inspection rotated out of the Oxz plane gives beamspread {b3!r} instead of {b!r}: "
+                        "it does not depend on leg lengths, velocities and incidence angles only", {**cj, "rotation": R.tolist()}, {"kind": "rigid_motion"})
     ctx.assumptions.append("sin / cos / sqrt are external routines; the neighbourhood of total-reflection angles is excluded (the tube degenerates)")
 
 
